@@ -208,12 +208,6 @@ Definition accepted_despite (r : sreason) (v : N) (bs : list N) : bool :=
 Definition ptype_of (bs : list N) : N := match bs with f :: _ => f / 16 | [] => 0 end.
 Definition pflags_of (bs : list N) : N := match bs with f :: _ => f mod 16 | [] => 0 end.
 
-(* the Remaining Length field has more than four bytes (accepted when the excess bits are zero) *)
-Definition kf_varint_long (v : N) (bs : list N) : bool :=
-  match bs with _ :: a :: b :: c :: d :: _ => (128 <=? a) && (128 <=? b) && (128 <=? c) && (128 <=? d) | _ => false end.
-(* the input ends inside the Remaining Length field: decoded as if a zero byte followed *)
-Definition kf_varint_eof (v : N) (bs : list N) : bool :=
-  match bs with _ :: r => forallb (fun x => 128 <=? x) r && (len r <=? 3) | [] => false end.
 (* a non-minimal Remaining Length / Property Length / Subscription Identifier is accepted;
    TotalBytes then differs from the bytes read *)
 Definition kf_varint_noncanonical (v : N) (bs : list N) : bool :=
@@ -225,9 +219,9 @@ Definition kf_varint_noncanonical (v : N) (bs : list N) : bool :=
       | _ :: a :: b :: c :: 0 :: _ => (128 <=? a) && (128 <=? b) && (128 <=? c)
       | _ => false
       end).
-(* a varint inside the packet (Property Length, Subscription Identifier) cut off by the end of
-   its buffer is read as if a zero byte followed; a missing Property Length reads as 0 *)
-Definition kf_varint_eof_inner (v : N) (bs : list N) : bool := accepted_despite SShort v bs.
+(* a v5 packet whose body ends before a mandatory Property Length (PUBLISH, SUBSCRIBE, CONNACK, ...)
+   is read as having no properties *)
+Definition kf_proplen_omitted (v : N) (bs : list N) : bool := accepted_despite SShort v bs.
 (* Unpack allocates the declared Remaining Length before reading: more is allocated than the
    input supplies *)
 Definition kf_alloc_upfront (v : N) (bs : list N) : bool := len bs <? model_stream_alloc 4 v bs.
@@ -253,29 +247,9 @@ Definition kf_connect_props_will (v : N) (bs : list N) : bool :=
   (ptype_of bs =? CONNECT) && accepted_despite SPropNotAllowed v bs.
 (* AUTH (type 15) accepted on a 3.1 / 3.1.1 connection *)
 Definition kf_auth_v3 (v : N) (bs : list N) : bool := (ptype_of bs =? AUTH) && accepted_despite SReservedType v bs.
-(* CONNACK is always decoded as a v5 CONNACK *)
-Definition kf_connack_v5 (v : N) (bs : list N) : bool := (ptype_of bs =? CONNACK) && negb (v =? 5) && model_accepts v bs.
-(* Will QoS 3 accepted; Pack writes it as 0 *)
-Definition kf_will_qos3 (v : N) (bs : list N) : bool :=
-  match model_body v bs with Some (BConnect c) => c_wqos c =? 3 | _ => false end.
 (* (3.1.1) password flag without user name flag accepted *)
 Definition kf_v3_password_without_username (v : N) (bs : list N) : bool :=
   match model_body v bs with Some (BConnect c) => negb (c_level c =? 5) && c_pflag c && negb (c_uflag c) | _ => false end.
-(* Connect.Pack writes the length of the protocol name as 4: "MQIsdp" does not survive *)
-Definition kf_connect_v31_pack (v : N) (bs : list N) : bool :=
-  match model_body v bs with Some (BConnect c) => c_level c =? 3 | _ => false end.
-(* a filter whose first level starts with "+" followed by other characters ("+a") *)
-Definition plus_prefix (f : str) : bool :=
-  match f with c :: d :: _ => (c =? PLUS) && negb (d =? SLASH) | _ => false end.
-Definition filter_part (f : str) : str :=
-  if has_prefix SHARE_PREFIX f then match cut_slash (skipn 7 f) with (_, Some r) => r | _ => f end else f.
-Definition body_filters (b : body) : list str :=
-  match b with BSubscribe _ _ ts _ => map st_name ts | BUnsubscribe _ _ ts _ => ts | _ => [] end.
-Definition kf_filter_plus_prefix (v : N) (bs : list N) : bool :=
-  match model_body v bs with
-  | Some b => existsb (fun f => plus_prefix f || plus_prefix (filter_part f)) (body_filters b)
-  | None => false
-  end.
 (* v5 UNSUBSCRIBE checks its filters with ValidTopicFilter, not ValidV5Topic *)
 Definition kf_unsub_share_syntax (v : N) (bs : list N) : bool :=
   (ptype_of bs =? UNSUBSCRIBE) && (v =? 5) && accepted_despite STopicFilter v bs.
@@ -285,19 +259,25 @@ Definition spec_body (v : N) (bs : list N) : option body :=
   match spec_decode v bs with SOk (b, _) => Some b | SBad _ => None end.
 Definition refused_valid (v : N) (bs : list N) : option body :=
   if model_accepts v bs then None else spec_body v bs.
-(* U+FFFD in a string *)
-Definition kf_utf8_fffd (v : N) (bs : list N) : bool :=
-  match refused_valid v bs with Some b => existsb has_fffd (utf8_strs b) | None => false end.
-(* Authentication Data is binary, but is checked as a UTF-8 string *)
-Definition impl_utf8 (s : str) : bool := match valid_utf8_impl s with Ok true => true | _ => false end.
-Definition kf_authdata_utf8 (v : N) (bs : list N) : bool :=
-  match refused_valid v bs with
-  | Some b => existsb (fun p => match ps_get 22 (pr_single p) with Some (PVStr s) => negb (impl_utf8 s) | _ => false end) (props_of b)
-  | None => false
+(* the strings checked by ValidTopicName / ValidTopicFilter / ValidV5Topic with mustUTF8 = true:
+   PUBLISH topic, Response Topic properties, SUBSCRIBE / UNSUBSCRIBE filters *)
+Definition resp_topics (p : option props) : list str :=
+  match p with
+  | Some p => match ps_get 8 (pr_single p) with Some (PVStr s) => [s] | _ => [] end
+  | None => []
   end.
-(* the CONNECT password is binary, but is checked as a UTF-8 string *)
-Definition kf_password_utf8 (v : N) (bs : list N) : bool :=
-  match refused_valid v bs with Some (BConnect c) => c_pflag c && negb (impl_utf8 (c_pass c)) | _ => false end.
+Definition topic_strs (b : body) : list str :=
+  match b with
+  | BConnect c => resp_topics (c_props c) ++ resp_topics (c_wprops c)
+  | BPublish _ _ _ _ t _ _ p => t :: resp_topics p
+  | BSubscribe _ _ ts _ => map st_name ts
+  | BUnsubscribe _ _ ts _ => ts
+  | _ => []
+  end.
+(* U+FFFD in a topic name or filter: ValidUTF8 accepts it, the topic predicates still take
+   utf8.RuneError for an error *)
+Definition kf_topic_fffd (v : N) (bs : list N) : bool :=
+  match refused_valid v bs with Some b => existsb has_fffd (topic_strs b) | None => false end.
 
 (* ---------------------------------------------------------------- encode oracle (suite cenc) *)
 (* b: the packet value handed to Pack; r: what the implementation produced *)
@@ -312,13 +292,7 @@ Definition c06_encode_ok (v : N) (b : body) (r : reenc) : bool :=
       may_reject b && (tb =? len bs) && match spec_decode v bs with SOk (sb, []) => body_eqb sb b | _ => false end
   | _ => false
   end.
-Definition kf_enc_connect_v31 (b : body) : bool := match b with BConnect c => c_level c =? 3 | _ => false end.
-Definition kf_enc_fffd (b : body) : bool := existsb has_fffd (utf8_strs b).
-Definition kf_enc_connack_v5 (b : body) : bool := match b with BConnack ver _ _ _ => negb (ver =? 5) | _ => false end.
-Definition kf_enc_password_utf8 (b : body) : bool :=
-  match b with BConnect c => c_pflag c && negb (impl_utf8 (c_pass c)) | _ => false end.
-Definition kf_enc_authdata_utf8 (b : body) : bool :=
-  existsb (fun p => match ps_get 22 (pr_single p) with Some (PVStr s) => negb (impl_utf8 s) | _ => false end) (props_of b).
+Definition kf_enc_topic_fffd (b : body) : bool := existsb has_fffd (topic_strs b).
 
 (* ---------------------------------------------------------------- topic predicates (suite ctopic) *)
 Inductive tbool := TB (b : bool) | TBPanic.
@@ -351,11 +325,10 @@ Definition c06_topic_ok (s : str) (o : topic_obs) : bool :=
 
 (* deviations, on the string *)
 Definition kf_t_name_empty (s : str) : bool := is_empty s.
+(* U+FFFD: refused by ValidTopicName / ValidTopicFilter / ValidV5Topic with mustUTF8 (not by ValidUTF8) *)
 Definition kf_t_fffd (s : str) : bool := has_fffd s.
+(* U+0000: accepted by the topic predicates when they are called directly *)
 Definition kf_t_nul (s : str) : bool := existsb (N.eqb 0) s.
-Definition kf_t_plus_prefix (s : str) : bool := plus_prefix s || plus_prefix (filter_part s).
-(* without the UTF-8 requirement the level rules are still applied to bytes of ill-formed
-   input: nothing to report, the specification has no such mode *)
 
 (* ---------------------------------------------------------------- Message sizes (suite cmsg) *)
 (* tb: Message.TotalBytes(v); r: Pack of MessageToPublish (bytes, TotalBytes after Pack) *)
